@@ -198,7 +198,7 @@ var c15ProjOpts = []c15Opt{
 	{"shell.shell_argument", "-c", "-ec"},
 }
 
-var c15EnvVals = []string{"", "x", "a=b", "x y", "\"q\"", "k=v=w"}
+var c15EnvVals = []string{"", "x", "a=b", "x y", "\"q\"", "k=v=w", "%Y-%m-%d 100%", "$HOME/{{.X}}\\n"}
 
 type c15Input struct {
 	Kind     string `json:"kind"`
@@ -209,7 +209,7 @@ type c15Input struct {
 }
 
 func c15E2(tier string, o *E2Out) {
-	o.Rule = "E2: two-file (thorough three-file) chains: (a) every documented single-valued option of the table (21 per process, 8 per project), one at a time, base in {unset,v1} x override in {unset,v2}, on a process present in both files that also carries untouched settings, the later file naming only that option or restating the whole definition; (b) environment entry A with every value of {\"\", x, a=b, 'x y', '\"q\"', k=v=w} or absent in base x override, per process and global, next to an untouched entry B; (c) depends_on keys and processes only-in-base / only-in-override / both; (d) extends vs naming both files (working_dir empty / relative / absolute in the base). Oracle: the merged project equals a single-file load of the reference fold (later wins per key, environment split at the first '='). Non-trivial = both files mention something."
+	o.Rule = "E2: two-file (thorough three-file) chains: (a) every documented single-valued option of the table (21 per process, 8 per project), one at a time, base in {unset,v1} x override in {unset,v2}, on a process present in both files that also carries untouched settings, the later file naming only that option or restating the whole definition; (b) environment entry A with every value of {\"\", x, a=b, 'x y', '\"q\"', k=v=w, '%Y-%m-%d 100%', '$HOME/{{.X}}\\n'} or absent in base x override, per process and global, next to an untouched entry B; (c) depends_on keys and processes only-in-base / only-in-override / both; (d) extends vs naming both files (working_dir empty / relative / absolute in the base). Oracle: the merged project equals a single-file load of the reference fold (later wins per key, environment split at the first '='). Non-trivial = both files mention something."
 	o.Exhaustive = true
 	dir, _ := os.MkdirTemp("", "vh-c15-")
 	defer os.RemoveAll(dir)
